@@ -98,7 +98,7 @@ Ltac tail Hl :=
 
 Lemma refines_step c init st sp o r :
   Good c init st sp -> op_ok o = true -> ResOk c o st r ->
-  Refines init (step_st c st o) (spec_step c sp o r).
+  Refines init (step_st c st o) (spec_step false c sp o r).
 Proof.
   intros (Hi & H0 & Hinv & HR) Hok [Hr1 Hr2].
   destruct sp as [ua un ul up].
